@@ -34,10 +34,10 @@ OPS = [
 ORDER = ["C13", "C16", "C14", "C18", "C15", "C10", "C07", "C06", "C17", "C11", "C12", "C08", "C09", "C05", "C04", "C01", "C03", "C02"]
 
 
-def code_lines(path):
+def code_lines(path, root=REPO):
     """(line number, text) of mutable code lines: not comments, not tests, not hook code."""
     out = []
-    lines = open(os.path.join(REPO, path)).read().split("\n")
+    lines = open(os.path.join(root, path)).read().split("\n")
     in_tests = False
     skip_block = 0  # brace depth of a cfg(feature="verif-hooks") item being skipped
     pending_cfg = False
@@ -79,10 +79,10 @@ def code_lines(path):
     return out
 
 
-def mutants():
+def mutants(root=REPO):
     ms = []
     for f in FILES:
-        for (ln, code) in code_lines(f):
+        for (ln, code) in code_lines(f, root):
             for (pat, rep) in OPS:
                 for m in re.finditer(pat, code):
                     # generic brackets are not comparisons
@@ -112,25 +112,32 @@ def main():
     ap.add_argument("--limit", type=int, default=10 ** 9)
     ap.add_argument("--out", default="/verif/mutation-campaign.json")
     ap.add_argument("--suite", action="store_true", help="run the pinned suite on survivors")
+    ap.add_argument("--only", default="", help="only mutants of files whose path contains this")
+    ap.add_argument("--root", default="/tmp/mut")
     a = ap.parse_args()
-    allm = mutants()
-    sel = [m for i, m in enumerate(allm) if i % a.every == a.offset % a.every][: a.limit]
     if a.cmd == "list":
+        allm = mutants()
+        sel = [m for i, m in enumerate(allm) if i % a.every == a.offset % a.every and (not a.only or a.only in m["file"])][: a.limit]
         for m in sel:
             print(f'{m["file"]}:{m["line"]}: [{m["old"].strip()}] -> [{m["new"].strip()}]   {m["text"][:100]}')
         print(f"{len(sel)} selected of {len(allm)} candidate mutants")
         return
-    root = "/tmp/mut"
+    root = a.root
     sh(f"git -C {REPO} worktree remove --force {root}/repo; rm -rf {root}; mkdir -p {root}")
     rc, o = sh(f"git -C {REPO} worktree add --detach {root}/repo HEAD")
     assert rc == 0, o
     sh(f"rsync -a --exclude target /verif/harness {root}/ && ln -sfn {root}/repo {root}/ggrs-src && mkdir -p {root}/out && cp /verif/known_findings.json {root}/out/")
+    # the mutants are computed from the scratch worktree itself (HEAD), never from /repo's working
+    # tree, which may have a seeded change applied by another job at this moment
+    allm = mutants(f"{root}/repo")
+    sel = [m for i, m in enumerate(allm) if i % a.every == a.offset % a.every and (not a.only or a.only in m["file"])][: a.limit]
     results = []
     t0 = time.time()
     for k, m in enumerate(sel):
         path = os.path.join(root, "repo", m["file"])
         lines = open(path).read().split("\n")
         orig = lines[m["line"] - 1]
+        assert orig[m["col"]: m["col"] + len(m["old"])] == m["old"], (m, orig)
         lines[m["line"] - 1] = orig[: m["col"]] + m["new"] + orig[m["col"] + len(m["old"]):]
         open(path, "w").write("\n".join(lines))
         rec = dict(m)
